@@ -277,6 +277,24 @@ func linterCheck(c *Check, id string) {
 	}
 	c.Floor("linter/rejection-present", 16)
 	c.Floor("linter/loop-totality", 9)
+	// the numbering by which "still the same source" is decided must be injective over fields and template arguments
+	if ir := r.ir("internal/tlcodegen.checkCombinatorsBackwardCompatibility"); ir != nil {
+		var fieldsRHS, argsRHS string
+		walkBlock(ir.Body, nil, func(n Node, _ []Guard) {
+			as, ok := n.(*AssignN)
+			if !ok || len(as.LHS) != 1 || len(as.RHS) != 1 {
+				return
+			}
+			switch {
+			case strings.Contains(as.LHS[0], ".Fields[*].FieldName]"):
+				fieldsRHS = as.RHS[0]
+			case strings.Contains(as.LHS[0], ".TemplateArguments[*].FieldName]"):
+				argsRHS = as.RHS[0]
+			}
+		})
+		neg := regexp.MustCompile(`^-\(\* \+ #([1-9]\d*)\)$`).MatchString(argsRHS)
+		c.Ob("linter/source-numbering-injective", "checkCombinatorsBackwardCompatibility/fillMapping", fieldsRHS == "*" && neg, r.pos(ir.Info.Decl.Pos()), fmt.Sprintf("fields are numbered %q (their index, >= 0) and template arguments %q (must be strictly negative: -(index+k), k >= 1), so a reference moved between a field and a template argument never compares as unchanged", fieldsRHS, argsRHS))
+	}
 	c.Floor("linter/comparer-coverage", 6)
 }
 
